@@ -6,7 +6,6 @@ use crate::blocks;
 use crate::common::*;
 use anstream::adapter::StripBytes;
 use anstream::StripStream;
-use core::cell::Cell;
 use std::io::Write as _;
 
 const NEVER: usize = 99;
@@ -14,8 +13,16 @@ const NEVER: usize = 99;
 /// Scripted inner writer.  While not `armed` it accepts everything and records nothing
 /// (used to bring the stream into its carried state); once armed, inner call `k` accepts
 /// `min(len, accept[k])` bytes, or fails with `kind` when `k == fail_at`.
-struct Script<'a> {
-    armed: &'a Cell<bool>,
+static mut ARMED: bool = false;
+
+fn arm(on: bool) {
+    unsafe { ARMED = on }
+}
+fn armed() -> bool {
+    unsafe { ARMED }
+}
+
+struct Script {
     out: Sink<4>,
     calls: usize,
     accept: [usize; 4],
@@ -23,10 +30,9 @@ struct Script<'a> {
     kind: std::io::ErrorKind,
 }
 
-impl<'a> Script<'a> {
-    fn new(armed: &'a Cell<bool>, accept: [usize; 4], fail_at: usize, kind: std::io::ErrorKind) -> Self {
+impl Script {
+    fn new(accept: [usize; 4], fail_at: usize, kind: std::io::ErrorKind) -> Self {
         Script {
-            armed,
             out: Sink::new(),
             calls: 0,
             accept,
@@ -36,9 +42,9 @@ impl<'a> Script<'a> {
     }
 }
 
-impl std::io::Write for Script<'_> {
+impl std::io::Write for Script {
     fn write(&mut self, buf: &[u8]) -> std::io::Result<usize> {
-        if !self.armed.get() {
+        if !armed() {
             return Ok(buf.len());
         }
         let k = self.calls;
@@ -52,7 +58,7 @@ impl std::io::Write for Script<'_> {
         Ok(n)
     }
     fn write_all(&mut self, buf: &[u8]) -> std::io::Result<()> {
-        if !self.armed.get() {
+        if !armed() {
             return Ok(());
         }
         let k = self.calls;
@@ -88,46 +94,75 @@ fn reference<const N: usize>(state: &StripBytes, buf: &[u8; N], n: usize) -> (Si
 }
 
 macro_rules! write_case {
-    ($name:ident, $n:expr, $u:literal) => {
+    ($name:ident, $prefix:expr, $n:expr, $u:literal) => {
+        /// One `write` of `$n` symbolic bytes from the state carried after the (concrete)
+        /// prefix `$prefix`; symbolic accept sizes, one injected error at a symbolic call.
         #[kani::proof]
         #[kani::unwind($u)]
         fn $name() {
-            let prefix: [u8; 2] = kani::any();
+            let prefix: &[u8] = $prefix;
             let buf: [u8; $n] = kani::any();
             let accept: [usize; 4] = kani::any();
+            // accept sizes {0, 1, 2, 3, everything}
+            kani::assume(accept[0] <= 3 || accept[0] == usize::MAX);
+            kani::assume(accept[1] <= 3 || accept[1] == usize::MAX);
+            kani::assume(accept[2] <= 3 || accept[2] == usize::MAX);
+            kani::assume(accept[3] <= 3 || accept[3] == usize::MAX);
             let fail_at: usize = kani::any();
             kani::assume(fail_at < 4 || fail_at == NEVER);
             let kind = any_kind();
-            let armed = Cell::new(false);
-            let mut script = Script::new(&armed, accept, fail_at, kind);
+            arm(false);
+            let mut script = Script::new(accept, fail_at, kind);
             let (res, after, carried) = {
-                let w: &mut dyn std::io::Write = &mut script;
+                let w: &mut (dyn std::io::Write + 'static) = &mut script;
                 let mut s = StripStream::new(w);
-                assert!(s.write_all(&prefix).is_ok());
+                assert!(s.write_all(prefix).is_ok());
                 let carried = s.verif_state().clone();
-                armed.set(true);
+                arm(true);
                 let res = s.write(&buf);
                 (res, s.verif_state().clone(), carried)
             };
             #[cfg(feature = "kf_c01_ctl_in_broken_utf8")]
             {
-                let mut whole = [0u8; 4];
-                whole[0] = prefix[0];
-                whole[1] = prefix[1];
+                // the recorded C01 finding: a control byte right after a dangling UTF-8 lead
+                let mut m = vmodels::strip::StripModel::new();
+                let mut ctl = false;
                 let mut i = 0;
-                while i < $n {
-                    whole[2 + i] = buf[i];
+                while i < prefix.len() {
+                    let _ = m.step(prefix[i]);
                     i += 1;
                 }
-                let (_k, ctl) = crate::strip_common::spec(&whole, 2 + $n);
+                let mut i = 0;
+                while i < $n {
+                    if m.step(buf[i]) == vmodels::strip::Keep::CtlInBrokenUtf8 {
+                        ctl = true;
+                    }
+                    i += 1;
+                }
                 kani::assume(!ctl);
+            }
+            // reference results for every possible count, each computed on a slice of
+            // concrete length by an independent copy of the adapter
+            let mut want_out: [Sink<4>; $n + 1] = core::array::from_fn(|_| Sink::new());
+            let mut want_st: [StripBytes; $n + 1] = core::array::from_fn(|_| carried.clone());
+            let mut k = 0;
+            while k <= $n {
+                let (o, st) = reference(&carried, &buf, k);
+                want_out[k] = o;
+                want_st[k] = st;
+                k += 1;
             }
             match res {
                 Ok(n) => {
                     assert!(n <= $n, "count no larger than the buffer");
-                    let (want, st) = reference(&carried, &buf, n);
-                    assert!(sinks_equal(&script.out, &want), "bytes accepted by the inner writer == strip of the consumed prefix");
-                    assert!(after == st, "carried state corresponds to exactly the bytes reported consumed");
+                    let mut k = 0;
+                    while k <= $n {
+                        if k == n {
+                            assert!(sinks_equal(&script.out, &want_out[k]), "bytes accepted by the inner writer == strip of the consumed prefix");
+                            assert!(after == want_st[k], "carried state corresponds to exactly the bytes reported consumed");
+                        }
+                        k += 1;
+                    }
                     if fail_at != NEVER && script.calls > fail_at {
                         // the inner writer failed during this call and the call still reports
                         // progress: allowed only if something had been delivered before
@@ -150,9 +185,19 @@ macro_rules! write_case {
     };
 }
 
-write_case!(write_1, 1, 8);
-write_case!(write_2, 2, 8);
-write_case!(write_3, 3, 8);
+write_case!(write_1_ground, b"", 1, 5);
+write_case!(write_1_escape, b"\x1b", 1, 5);
+write_case!(write_1_csi, b"\x1b[", 1, 5);
+write_case!(write_1_utf8_1, b"\xe2", 1, 5);
+write_case!(write_1_utf8_2, b"\xf0\x9f", 1, 5);
+write_case!(write_2_ground, b"", 2, 5);
+write_case!(write_2_escape, b"\x1b", 2, 5);
+write_case!(write_2_csi, b"\x1b[", 2, 5);
+write_case!(write_2_osc, b"\x1b]", 2, 5);
+write_case!(write_2_utf8_1, b"\xe2", 2, 5);
+write_case!(write_2_utf8_2, b"\xf0\x9f", 2, 5);
+write_case!(write_3_ground, b"", 3, 6);
+write_case!(write_3_csi, b"\x1b[", 3, 6);
 
 macro_rules! write_all_case {
     ($name:ident, $fname:ident, $n:expr, $u:literal) => {
@@ -164,14 +209,14 @@ macro_rules! write_all_case {
             let fail_at: usize = kani::any();
             kani::assume(fail_at < 4 || fail_at == NEVER);
             let kind = any_kind();
-            let armed = Cell::new(false);
-            let mut script = Script::new(&armed, [usize::MAX; 4], fail_at, kind);
+            arm(false);
+            let mut script = Script::new([usize::MAX; 4], fail_at, kind);
             let (res, carried) = {
-                let w: &mut dyn std::io::Write = &mut script;
+                let w: &mut (dyn std::io::Write + 'static) = &mut script;
                 let mut s = StripStream::new(w);
                 assert!(s.write_all(&prefix).is_ok());
                 let carried = s.verif_state().clone();
-                armed.set(true);
+                arm(true);
                 (s.write_all(&buf), carried)
             };
             let (want, _st) = reference(&carried, &buf, $n);
@@ -200,10 +245,10 @@ macro_rules! write_all_case {
             let fail_at: usize = kani::any();
             kani::assume(fail_at < 3 || fail_at == NEVER);
             let kind = any_kind();
-            let armed = Cell::new(true);
-            let mut script = Script::new(&armed, [usize::MAX; 4], fail_at, kind);
+            arm(true);
+            let mut script = Script::new([usize::MAX; 4], fail_at, kind);
             let res = {
-                let w: &mut dyn std::io::Write = &mut script;
+                let w: &mut (dyn std::io::Write + 'static) = &mut script;
                 let mut s = StripStream::new(w);
                 let sa = core::str::from_utf8(&a).unwrap();
                 let sb = core::str::from_utf8(&b).unwrap();
@@ -228,21 +273,21 @@ macro_rules! write_all_case {
     };
 }
 
-write_all_case!(write_all_2, write_fmt_2, 2, 8);
+write_all_case!(write_all_2, write_fmt_2, 2, 5);
 
 /// write_vectored: the first non-empty slice is written like `write`.
 #[kani::proof]
-#[kani::unwind(8)]
+#[kani::unwind(5)]
 fn write_vectored_2() {
     let a: [u8; 1] = kani::any();
     let b: [u8; 2] = kani::any();
     let la: usize = kani::any();
     kani::assume(la <= 1);
     let accept: [usize; 4] = kani::any();
-    let armed = Cell::new(true);
-    let mut script = Script::new(&armed, accept, NEVER, std::io::ErrorKind::Other);
+    arm(true);
+    let mut script = Script::new(accept, NEVER, std::io::ErrorKind::Other);
     let res = {
-        let w: &mut dyn std::io::Write = &mut script;
+        let w: &mut (dyn std::io::Write + 'static) = &mut script;
         let mut s = StripStream::new(w);
         let bufs = [std::io::IoSlice::new(&a[..la]), std::io::IoSlice::new(&b)];
         s.write_vectored(&bufs)
